@@ -35,3 +35,14 @@ add('C41','model_checking','exhaustive enumeration of operand pairs over boundar
 add('C39','model_checking','exhaustive enumeration of single-byte signature/message mutations, key substitutions and multisig arrangements on the real verification code',
  'For fixed deterministic keys of both types and several messages: all 64x255 signature substitutions, message substitutions, other keys/messages must fail and the genuine one must verify; every multisig member list of 0..3 keys x every arrangement of signatures; all key encodings round-trip.',
  'Forgery resistance beyond the enumerated mutations is a cryptographic assumption (stated in DESIGN §5).')
+_chain_note='Bounded depth over a fixed event menu, 3 nodes/2 apps/handful of accounts, shrunken parameters (2-block sessions, 1-interval unstaking); heights below 30040 (legacy height patches differ from mainnet); MemDB; worker processes with reset globals.'
+add('C17','model_checking','explicit-state BFS over the real PocketCoreApp (block = transition) with the supply invariant evaluated in every reached state',
+ 'Every history of blocks up to the depth over a menu of sends, node/app staking, governance and environment events (missed votes, evidence, time jumps) is executed on the real application; in every reached state the recorded supply must equal the sum of all balances and every balance must be canonical.',_chain_note)
+add('C19','model_checking','explicit-state BFS over the real PocketCoreApp with the node-pool invariant in every reached state',
+ 'Node staking pool balance == sum of stakes of staked+unstaking nodes in every state reachable through the node/env menu up to the depth.',_chain_note)
+add('C20','model_checking','explicit-state BFS over the real PocketCoreApp with the app-pool invariant in every reached state',
+ 'Application staking pool balance == sum of stakes of staked+unstaking applications in every state reachable through the app menu (stake, edit, transfer, unstake, time jumps) up to the depth.',_chain_note)
+add('C21','model_checking','explicit-state BFS over the real PocketCoreApp with raw-index vs record comparison in every reached state',
+ 'The raw staked-by-power, per-chain, unstaking-queue and waiting indexes are decoded from the store and compared with the node records in every reachable state up to the depth.',_chain_note)
+add('C22','model_checking','explicit-state BFS over the real PocketCoreApp folding every reported validator update like Tendermint',
+ 'The consensus set obtained by folding InitChain/EndBlock updates equals the top-N staked unjailed nodes with current power in every reachable state, including MaxValidators changes.',_chain_note)
